@@ -1372,7 +1372,15 @@ class Interp:
                         k_ = ca if ca is not None else cb
                         if 8 < abs(k_) < (1 << 31):
                             fn = self.frames[-1]["__fn__"]
-                            if fn.in_lib():
+                            # pure integer -> scalar helpers (free functions of the helper layers whose parameters are all
+                            # integers or scalars: factorials, binomials, prefactor tables) compare template constants and
+                            # loop counters bounded by them, not grid-sized quantities: a table limit such as `n <= 12`
+                            # there is not a size threshold (the constant-table suites cover those arguments)
+                            pure = (fn.decl.get("record") is None and fn.qn.startswith(INT_HELPERS) and
+                                    all(p_["type"].replace("const ", "").strip(" &") in
+                                        ("unsigned long", "size_t", "int", "unsigned int", "long", self.scalar)
+                                        for p_ in fn.decl.get("params", ())))
+                            if fn.in_lib() and not pure:
                                 site = (fn.pkey, e.get("l"), e.get("c"))
                                 self.thresholds.setdefault(site, [set(), k_, fn.pqn])[0].add(r_)
                 return r_
